@@ -537,7 +537,9 @@ func (rt resultGrouped) Extract(cw containerWriter, decorated bool, v reflect.Va
 	}
 
 	if decorated {
-		cw.submitDecoratedGroupedValue(rt.Group, rt.Type, v)
+		// Decorators are registered under the element type of the group;
+		// store their output under the same key.
+		cw.submitDecoratedGroupedValue(rt.Group, rt.Type.Elem(), v)
 		return
 	}
 	for i := 0; i < v.Len(); i++ {
